@@ -171,6 +171,9 @@ func (db *RockDB) BitSetV2(ts int64, key []byte, offset int64, on int) (int64, e
 		return 0, err
 	}
 	if !ok {
+		// no live bitmap in the new format (none, or an expired one whose data is dead):
+		// the size starts from 0 again
+		bmSize = 0
 		// convert old data to new
 		table, oldkey, err := convertRedisKeyToDBKVKey(key)
 		if err != nil {
